@@ -614,7 +614,7 @@ func determinismObservation(op string, attrs []attr, mkIns func() []tensor.Tenso
 	}
 }
 
-var runAll = goOnlyResult{Stream: "through_run", Rule: "a node in a graph computes what its operator computes: the case as a single-node model (every input a fed graph input declared with dynamic dimensions, the node's outputs the graph outputs), loaded from bytes and Run, gives bit for bit the tensors of the operator API -- and an error where the operator API refuses (the first six cases of every operator and attribute list, one in sixteen afterwards)", Violations: []string{}}
+var runAll = goOnlyResult{Stream: "through_run", Rule: "a node in a graph computes what its operator computes: the case as a single-node model (every input a fed graph input declared with dynamic dimensions, the node's outputs the graph outputs), loaded from bytes and Run, gives bit for bit the tensors of the operator API -- and an error where the operator API refuses (the first six cases of every operator and attribute list, one in four afterwards)", Violations: []string{}}
 var runSeen = map[string]int{}
 var runCounter = 0
 
@@ -637,7 +637,7 @@ func throughRunObservation(op string, attrs []attr, mkIns func() []tensor.Tensor
 	runSeen[key]++
 	if runSeen[key] > 6 {
 		runCounter++
-		if runCounter%16 != 0 {
+		if runCounter%4 != 0 {
 			return
 		}
 	}
